@@ -197,6 +197,7 @@ def gillespie_stats(rep, tier, seed):
         scaled = 0.0
         nsteps = 0
         exp_by_delta, var_by_delta, obs_by_delta = {}, {}, {}
+        wait_by_delta = {}      # a0-scaled waiting time, split by the event that ended the wait
         sts = tr["states"]
         nbr = _neighbour_table(m)
         for k in range(len(sts) - 1):
@@ -209,6 +210,7 @@ def gillespie_stats(rep, tier, seed):
             nsteps += 1
             delta = json.dumps([[sts[k + 1][i][s] - sts[k][i][s] for s in range(nS)] for i in range(nC)])
             obs_by_delta[delta] = obs_by_delta.get(delta, 0) + 1
+            wait_by_delta[delta] = wait_by_delta.get(delta, 0.0) + (ts[k + 1] - ts[k]) * float(a0)
             # expected: group channels by the delta they produce (spec semantics of FireRes / MoveRes)
             probs = {}
             for a, ch in chans:
@@ -226,6 +228,14 @@ def gillespie_stats(rep, tier, seed):
             rep.violation("stats", "stats:waiting-times:" + desc["name"],
                           {"model": desc["name"], "steps": nsteps, "mean_scaled_wait": scaled / max(nsteps, 1),
                            "chernoff_exponent": dev, "limit": math.log(2 / DELTA)})
+        # waiting time and event choice are independent: given ANY event class the scaled wait is still Exp(1)
+        for d, n_d in obs_by_delta.items():
+            okj, devj = gamma_ok(wait_by_delta[d], n_d)
+            rep.case(["stats-wait-given-event", desc["name"], d])
+            if not okj:
+                rep.violation("stats", "stats:waiting-time-depends-on-event:" + desc["name"],
+                              {"model": desc["name"], "delta": json.loads(d), "events": n_d, "mean_scaled_wait_given_event": wait_by_delta[d] / n_d,
+                               "chernoff_exponent": devj, "limit": math.log(2 / DELTA)})
         for d in set(exp_by_delta) | set(obs_by_delta):
             o, e, v = obs_by_delta.get(d, 0), exp_by_delta.get(d, 0.0), var_by_delta.get(d, 0.0)
             good, t = bernstein_ok(o, e, v)
